@@ -39,17 +39,25 @@ def run_check(pid, tier, seed, replay=None):
     known_lines = []
     # ---- 0. fragments regenerated from /repo's current source (constants, guard tables)
     import translate
-    regen_err = None
+    regen_errors = {}
     try:
-        translate.regenerate()
+        _, regen_errors = translate.regenerate_all()
         if hasattr(mod, "prepare"):
             mod.prepare(tier)
     except translate.TieBroken as e:
-        regen_err = str(e)
+        regen_errors["prepare"] = str(e)
     # ---- 1. proofs (re-checked against the regenerated fragments)
     pr = proof_step(pid, tier)
-    if regen_err:
-        pr["errors"].append("source translator: " + regen_err)
+    # a fragment that could not be regenerated matters to this property iff its Props file depends on it
+    deps = set(os.path.relpath(d, COQDIR) for d in vfile_deps(os.path.join(COQDIR, "Props", pid + ".v")))
+    mine = {k: v for k, v in regen_errors.items() if k in deps or k == "prepare" or k in getattr(mod, "FRAGMENTS", ())}
+    pr["obligations"] += 1                  # the source translators must recognise the current source
+    if mine:
+        for k, v in sorted(mine.items()):
+            pr["errors"].append("source translator (%s): %s" % (k, v))
+    else:
+        pr["discharged"] += 1
+    other = sorted(set(regen_errors) - set(mine))
     proof_broken = bool(pr["errors"]) or pr["discharged"] != pr["obligations"]
     # ---- 2. executor from the current working tree
     exe, bout = build_harness()
@@ -231,6 +239,7 @@ def run_check(pid, tier, seed, replay=None):
         "unproved_halves": mod.UNPROVED,
         "exhaustive": bool(getattr(mod, "EXHAUSTIVE", False)),
         "known_findings_hit": known_lines,
+        "translator_fragments_broken_elsewhere": other,
     }
     if hasattr(mod, "extra_coverage"):
         cov.update(mod.extra_coverage())
